@@ -97,14 +97,33 @@ class Driver(object):
                 "driver binary %s missing: run `make -s -C /verif/impl -j8`" % self.path
             )
         env = dict(os.environ)
-        self.proc = subprocess.Popen(
-            [self.path],
-            stdin=subprocess.PIPE,
-            stdout=subprocess.PIPE,
-            stderr=subprocess.PIPE,
-            bufsize=1 << 20,
-            env=env,
-        )
+        import time
+
+        last = None
+        for attempt in range(10):
+            # another agent may be re-linking /verif/.build/std at this very moment: retry
+            try:
+                self.proc = subprocess.Popen(
+                    [self.path],
+                    stdin=subprocess.PIPE,
+                    stdout=subprocess.PIPE,
+                    stderr=subprocess.PIPE,
+                    bufsize=1 << 20,
+                    env=env,
+                )
+                self.proc.stdin.write(b"(hello ping)\n")
+                self.proc.stdin.flush()
+                if self.proc.stdout.readline().strip() == b"(hello ok pong)":
+                    last = None
+                    break
+                last = RuntimeError("pydrv did not answer the start-up ping (returncode %r): %s" % (
+                    self.proc.poll(), self.proc.stderr.read().decode("utf-8", "replace")[-500:]))
+            except (OSError, ValueError) as err:
+                last = err
+            time.sleep(1.0 + attempt)
+        if last is not None:
+            self.proc = None
+            raise last
         self.generation += 1
 
     def stop(self):
